@@ -402,5 +402,9 @@ Proof.
       repeat match goal with H : _ \/ _ |- _ => destruct H | H : False |- _ => destruct H end; subst o || idtac;
       try reflexivity; try discriminate; try lia;
       try (eapply Q; [| | | eassumption]; [eassumption || lia| assumption | eexists; eassumption]).
+    all: try (match goal with H1 : In ?o (log ?s0) |- fires_for ?k ?o = false =>
+                 destruct (fires_for k o) eqn:F; [exfalso; pose proof (Hb o H1 F); lia | reflexivity] end).
+    all: try (eapply (Q i); [lia | eassumption | eexists; eassumption | eassumption]).
+    all: try (eapply (Q n); [lia | eassumption | eexists; eassumption | eassumption]).
     all: idtac "QREM". Show.
 Abort.
